@@ -18,7 +18,7 @@
 #define BLANK         V_BLANK
 
 extern "C" {
-   extern int g_st[9];                                        /* stream state + scratch, see contract.c */
+   extern int g_st[10];                                        /* stream state + scratch, see contract.c */
    extern int g_i;                                           /* ghost field index of the contract */
    extern char* gp_save;                                     /* strtok's hidden state */
    extern char* gp_host; extern int* gp_lineno; extern char* gp_buf;
@@ -37,21 +37,17 @@ extern "C" {
 #define g_sc_from g_st[6]
 #define g_sc_k g_st[7]
 #define g_sc_e g_st[8]
+#define g_T g_st[9]
 
 struct SPxOut { static void debug(const void*, const char*, ...) {} };
 
 /* ---- C library models ------------------------------------------------------------------------------------- */
 /* strlen / strtok are only ever applied to (suffixes of) m_buf.  A literal transcription with `while(*s ...) s++`
  * makes CBMC's symbolic execution carry 256-deep nested pointer expressions from call to call (measured: symex
- * alone > 5 min).  The models (contract.c, C because they use quantifier syntax) therefore compute "the first
- * position >= from with property P" declaratively:
- *   1. ASSERT that a terminator exists at or behind `from` inside the buffer (so the position exists; P(NUL) holds
- *      for all three P used),
- *   2. choose k nondeterministically, assume P(buf[k]) and !P(buf[j]) for every j in [from, k).
- * Both steps quantify over the CONSTANT range 0..MAX_LINE_LEN-1 (expanded by CBMC into 256 conjuncts/disjuncts;
- * constant-range quantifiers are handled exactly by the SAT back end).  The result is exactly the value the ISO C
- * function computes.  They keep their scratch values in ghost globals, not locals: dfcc turns every local into an
- * addressable object and the cost of its write-set maps grows with 2^object-bits. */
+ * alone > 5 min), and an exact declarative model (first position with property P, pinned down by quantifiers)
+ * gives SAT queries of > 5 min.  The models (contract.c) therefore OVER-approximate: they pick SOME position with
+ * the property between the argument and a ghost terminator witness - every behaviour of the ISO C function is
+ * included.  They keep their scratch values in ghost globals, not locals (every local is a dfcc-tracked object). */
 extern "C" {
    size_t verif_strlen(const char* s);
    char* verif_strtok(char* s, const char* delim);
@@ -82,7 +78,7 @@ struct IStreamStub
       g_calls = (int)((unsigned)g_calls + 1u);
       if(g_remaining <= 0)
       {
-         b[0] = '\0'; g_good = 0; g_eof = 1; g_fail = 1;   /* end of file: nothing extracted, eofbit|failbit, sticky */
+         b[0] = '\0'; g_T = 0; g_good = 0; g_eof = 1; g_fail = 1;   /* end of file: nothing extracted, eofbit|failbit, sticky */
          return *this;
       }
       g_remaining--; g_consumed++;
@@ -90,6 +86,7 @@ struct IStreamStub
       g_sc_k = nondet_int();
       __CPROVER_assume(0 <= g_sc_k && g_sc_k <= MAX_LINE_LEN - 1);
       b[g_sc_k] = '\0';
+      g_T = g_sc_k;                                        /* terminator witness, see contract.c */
       g_eof = nondet_int() != 0; g_fail = nondet_int() != 0;   /* normal line / last line without newline / overlong line / bad stream */
       g_good = !g_eof && !g_fail && nondet_int() != 0;          /* (badbit also clears good()) */
       return *this;
